@@ -21,20 +21,18 @@ func init() { register("C04", false, checkC04) }
 
 func checkC04(c *Ctx) {
 	c.Rule("C04.R1", "Extend/extendPoint = lattice join (empty operand is the identity), NewBounds = join identity, Overlaps ⇔ closed boxes share a point, Empty ⇔ Max<Min on an axis, Copy field-wise and fresh, box∩box = common rectangle or nil iff no shared area — for every weak ordering of the coordinates")
-	c.Rule("C04.R2", "each Bounds()/Len() ranges over the whole receiver with no skip or early exit and folds every vertex / member box / member length")
-	c.Rule("C04.R3", "in each Points() closure every nested element access X[k]..[j][e] (and member iterator call) is preceded on every path, since the last write to an index it mentions or since closure entry, by a comparison of that index with the prefix's length; Points() itself indexes nothing before the first call")
+	c.Rule("C04.R2", "Len() = number of vertices and Bounds() = smallest box around them (NewBounds() when there are none), evaluated for all eight types on model geometries with empty members in every position")
+	c.Rule("C04.R3", "Points(): Len() calls of the iterator yield the vertices in storage order without panicking, for all eight types on model geometries with empty members in every position (leading, trailing, runs, nested)")
 	c.Rule("C04.R5", "axis discipline in packages geom, index/rtree and op: no comparison relates an X ordinate to a Y ordinate (directly, through locals, math.Min/Max or ± axis-free terms)")
-	c.Rule("C04.R4", "iterator indices are only incremented or reset to 0 and the innermost index is incremented exactly once between its guard and the return (storage order, no skipping)")
 	e := newC04E2(c)
 	e.lattice()
-	c04folds(c, e)
-	c04iters(c)
+	c04model(c, "C04.R2", "C04.R3")
 	c.exhaust = true
 	checkAxisDiscipline(c, "C04.R5", "geom", "index/rtree", "op")
 	c.Floor("C04.R5", 3)
 	c.Floor("C04.R1", 7)
-	c.Floor("C04.R2", 14)
-	c.Floor("C04.R3", 4)
+	c.Floor("C04.R2", 16)
+	c.Floor("C04.R3", 8)
 }
 
 type c04e2 struct {
